@@ -174,6 +174,7 @@ type c17QWorld struct {
 	g      *vk.Gated
 	svc    *ConnectionCodeService   // node 0
 	svcs   []*ConnectionCodeService // one per node, all on the same store
+	build  *ConnectionCodeService   // same store, quotas 1000/1000: writes histories the quota under test would refuse to build
 	ccRepo *repos.ConnectionCodeRepository
 	pmRepo *repos.PortMappingRepo
 }
@@ -219,6 +220,8 @@ func c17NewQWorldOn(backend string, codeQuota, mapQuota, nodes int) *c17QWorld {
 		w.svcs = append(w.svcs, svc)
 		if i == 0 {
 			w.svc, w.ccRepo, w.pmRepo = svc, ccRepo, pmRepo
+			w.build = NewConnectionCodeService(ccRepo, pmSvc, pmRepo,
+				&ConnectionCodeServiceConfig{MaxActiveCodesPerClient: 1000, MaxActiveMappingsPerClient: 1000}, ctx)
 		}
 	}
 	return w
@@ -375,12 +378,22 @@ func c17Setup(w *c17QWorld, cs c17QCase) (reqs []func() error, probes func() (fu
 // store and independent of the per-client indexes the service counts through: codes of
 // the target client that are valid for activation / active mappings of the listener.
 func (w *c17QWorld) usable(cs c17QCase) int {
-	n := 0
 	if cs.Kind == "code-quota" {
+		return w.usableOf(cs.Kind, c17Target)
+	}
+	return w.usableOf(cs.Kind, c17Listen)
+}
+
+// usableOf asks the product's own validity predicates (TunnelConnectionCode.
+// IsValidForActivation, PortMapping.IsValid: what activation / tunnel admission accept),
+// never the raw field values: "usable => occupies the quota".
+func (w *c17QWorld) usableOf(kind string, client int64) int {
+	n := 0
+	if kind == "code-quota" {
 		recs, _ := w.mem.QueryByPrefix(constants.KeyPrefixRuntimeConnectionCodeByCode, 0)
 		for _, js := range recs {
 			var c models.TunnelConnectionCode
-			if json.Unmarshal([]byte(js), &c) == nil && c.TargetClientID == c17Target && c.IsValidForActivation() {
+			if json.Unmarshal([]byte(js), &c) == nil && c.TargetClientID == client && c.IsValidForActivation() {
 				n++
 			}
 		}
@@ -389,7 +402,7 @@ func (w *c17QWorld) usable(cs c17QCase) int {
 	recs, _ := w.mem.QueryByPrefix(constants.KeyPrefixPortMapping+":", 0)
 	for _, js := range recs {
 		var m models.PortMapping
-		if json.Unmarshal([]byte(js), &m) == nil && (m.ListenClientID == c17Listen || m.TargetClientID == c17Listen) && m.Status == models.MappingStatusActive && !m.IsRevoked && !m.IsExpired() {
+		if json.Unmarshal([]byte(js), &m) == nil && (m.ListenClientID == client || m.TargetClientID == client) && m.IsValid() {
 			n++
 		}
 	}
@@ -509,6 +522,173 @@ func c17IndexWritersTrial(run *vk.Run, Q int, outer string, j int) int {
 	}
 	run.Distinct(fmt.Sprintf("mapping-quota|index-writers|%s|Q%d|op%d/%d|usable%d", outer, Q, j, ops, w.usable(cs)))
 	return ops
+}
+
+// c17HistoryEntry builds one entry of a client's history through the builder service and
+// returns a function that turns it stale (its records vanish as after TTL expiry while the
+// index entry stays). what: "L" live, "S" stale, or a status spelling for a mapping.
+func (w *c17QWorld) buildEntry(kind string, client int64, ttl time.Duration) (id string, makeStale func(), mapping *models.PortMapping, err error) {
+	n := c17AddrSeq.Add(1)
+	target := client
+	if kind == "mapping-quota" {
+		target = c17Target + 20000 + n%1000
+	}
+	c, err := w.build.CreateConnectionCode(&CreateConnectionCodeRequest{
+		TargetClientID: target, TargetAddress: fmt.Sprintf("tcp://10.18.%d.%d:%d", (n>>8)&0xff, n&0xff, 10000+int(n%50000)),
+		ActivationTTL: ttl, MappingDuration: time.Hour, Description: "c17-history", CreatedBy: "c17",
+	})
+	if err != nil {
+		return "", nil, nil, err
+	}
+	if kind == "code-quota" {
+		return c.ID, func() {
+			_ = w.mem.Delete(constants.KeyPrefixRuntimeConnectionCodeByCode + c.Code)
+			_ = w.mem.Delete(constants.KeyPrefixRuntimeConnectionCodeByID + c.ID)
+		}, nil, nil
+	}
+	m, err := w.build.ActivateConnectionCode(&ActivateConnectionCodeRequest{Code: c.Code, ListenClientID: client, ListenAddress: fmt.Sprintf("0.0.0.0:%d", 10000+int(n%50000))})
+	if err != nil {
+		return "", nil, nil, err
+	}
+	return m.ID, func() { _ = w.mem.Delete(constants.KeyPrefixPortMapping + ":" + m.ID) }, m, nil
+}
+
+// request makes one quota-governed request of the client through node 0 (the quota under test).
+func (w *c17QWorld) request(kind string, client int64) error {
+	n := c17AddrSeq.Add(1)
+	if kind == "code-quota" {
+		_, err := w.svcs[0].CreateConnectionCode(&CreateConnectionCodeRequest{
+			TargetClientID: client, TargetAddress: fmt.Sprintf("tcp://10.19.%d.%d:%d", (n>>8)&0xff, n&0xff, 10000+int(n%50000)),
+			ActivationTTL: 10 * time.Minute, MappingDuration: time.Hour, CreatedBy: "c17",
+		})
+		return err
+	}
+	c, err := w.build.CreateConnectionCode(&CreateConnectionCodeRequest{
+		TargetClientID: c17Target + 30000 + n%1000, TargetAddress: fmt.Sprintf("tcp://10.19.%d.%d:%d", (n>>8)&0xff, n&0xff, 10000+int(n%50000)),
+		ActivationTTL: 10 * time.Minute, MappingDuration: time.Hour, CreatedBy: "c17",
+	})
+	if err != nil {
+		return fmt.Errorf("c17 setup: %w", err)
+	}
+	_, err = w.svcs[0].ActivateConnectionCode(&ActivateConnectionCodeRequest{Code: c.Code, ListenClientID: client, ListenAddress: fmt.Sprintf("0.0.0.0:%d", 10000+int(n%50000))})
+	return err
+}
+
+// c17ObjectHistoryTrial: the client's index is built entry by entry from `pattern`
+// (L = live entry, S = entry whose records are gone while the index still references it,
+// for mappings also a status spelling such as "Active" written the way the management API
+// stores it: verbatim). Then the client makes requests until one is refused. Oracle: a
+// request made while the client's USABLE records (per the product's validity predicate)
+// have reached the quota is refused.
+func c17ObjectHistoryTrial(run *vk.Run, kind string, Q int, client int64, pattern []string, realTTL bool) {
+	var w *c17QWorld
+	if kind == "code-quota" {
+		w = c17NewQWorld(Q, 1000, 1)
+	} else {
+		w = c17NewQWorld(1000, Q, 1)
+	}
+	defer w.close()
+	cs := map[string]any{"kind": kind, "quota": Q, "client": client, "index_history": strings.Join(pattern, ","), "stale_by_real_ttl": realTTL}
+	run.Case(kind+"-object-history", cs)
+	var stale []func()
+	var staleIDs []string
+	for _, e := range pattern {
+		ttl := 10 * time.Minute
+		if e == "S" && realTTL && kind == "code-quota" {
+			ttl = 15 * time.Millisecond
+		}
+		id, mk, m, err := w.buildEntry(kind, client, ttl)
+		if err != nil {
+			run.Count(kind+"_prefill_refused", 1)
+			return
+		}
+		switch {
+		case e == "L":
+		case e == "S":
+			if realTTL && kind == "code-quota" {
+				staleIDs = append(staleIDs, id)
+			} else {
+				stale = append(stale, mk)
+			}
+		default: // a status spelling, stored verbatim
+			m.Status = models.MappingStatus(e)
+			if err := w.pmRepo.UpdatePortMapping(m); err != nil {
+				run.Count(kind+"_prefill_refused", 1)
+				return
+			}
+		}
+	}
+	for _, mk := range stale {
+		mk()
+	}
+	if len(staleIDs) > 0 { // wait (bounded) for the short-lived records to expire on their own
+		dl := time.Now().Add(2 * time.Second)
+		for _, id := range staleIDs {
+			for {
+				if _, err := w.mem.Get(constants.KeyPrefixRuntimeConnectionCodeByID + id); err != nil {
+					break
+				}
+				if time.Now().After(dl) {
+					run.Count("watchdog", 1)
+					return
+				}
+				time.Sleep(2 * time.Millisecond)
+			}
+		}
+	}
+	type step struct {
+		Before   int  `json:"usable_before"`
+		Admitted bool `json:"admitted"`
+	}
+	var steps []step
+	for i := 0; i < Q+3; i++ {
+		before := w.usableOf(kind, client)
+		err := w.request(kind, client)
+		if err != nil && strings.HasPrefix(err.Error(), "c17 setup") {
+			return
+		}
+		steps = append(steps, step{before, err == nil})
+		if err == nil && before >= Q {
+			cs["requests"] = steps
+			cs["usable_after"] = w.usableOf(kind, client)
+			run.Violation("C17:"+kind+"|exceeded|after-object-history", cs)
+			break
+		}
+		if err != nil {
+			if before >= Q {
+				run.Count(kind+"_object_history_refused_at_quota", 1)
+			}
+			break
+		}
+	}
+	run.Eval(1)
+	run.Count(kind+"_object_histories", 1)
+	run.Distinct(fmt.Sprintf("%s|object-history|Q%d|c%d|%s|ttl%v|usable%d", kind, Q, client, strings.Join(pattern, ""), realTTL, w.usableOf(kind, client)))
+}
+
+// c17Patterns enumerates index histories over the alphabet with exactly `live` entries
+// that are not the first letter's kind... all strings of the given length with `live` L's.
+func c17Patterns(length, live int, other []string) [][]string {
+	var out [][]string
+	var rec func(pos, l int, cur []string)
+	rec = func(pos, l int, cur []string) {
+		if pos == length {
+			if l == live {
+				out = append(out, append([]string(nil), cur...))
+			}
+			return
+		}
+		if l < live {
+			rec(pos+1, l+1, append(cur, "L"))
+		}
+		if length-pos > live-l {
+			for _, o := range other {
+				rec(pos+1, l, append(cur, o))
+			}
+		}
+	}
+	rec(0, 0, nil)
+	return out
 }
 
 // c17SequentialNodesTrial: strictly sequential requests of one client, served by the
@@ -829,6 +1009,13 @@ func c17InterposeTrial(run *vk.Run, kind string, Q, nodes, j int) int {
 	return ops
 }
 
+func c17HistClient(kind string) int64 {
+	if kind == "code-quota" {
+		return c17Target
+	}
+	return c17Listen
+}
+
 func c17Sig(cs c17QCase, what string) string {
 	if cs.Nodes > 1 {
 		return "C17:" + cs.Kind + "|" + what + "|cross-node"
@@ -1073,6 +1260,7 @@ func c17QuotaMonitor(t *testing.T, kind, name string) {
 	run.Rule(what + " with quota Q in {1,2,5}: fill to Q-1 (or Q-2), then N in {2,8,32} concurrent requests. mode hold: each request is held at its first mutating storage operation until K in {2..N} requests are there; " +
 		"mode free: spin barrier only; mode sched: every storage operation is a gate of vk.Sched with a seeded random chooser (N in {2,8}); mode explore: N=2, all schedules with <=2 (thorough: 3) preemptions (capped by runs and by total scheduling steps); 1 in 5 trials places the racers on two service nodes sharing the store. " +
 		"interposed-read: one admission with a lock-free read request of the same client (list codes / list mappings, node 0 or 1) served before its j-th storage operation, for every j, then admissions until refused; half of the sched trials add such a reader thread. " +
+		"object histories: the client's index built entry by entry (live entries, entries whose records are gone - deleted or expired by a 15 ms TTL - before/between/after the live ones, mappings whose status was rewritten with other spellings, owner ids 1..2^63-1), then requests until refused; usable records are counted with the product's own validity predicates. " +
 		"sequential-across-nodes: Q+3 strictly sequential requests served in turn by 2-3 nodes that each sit behind their own HybridStorage (local cache + one shared cache, default prefix routing); claim-held (code quota): owner at quota, an activation of one of his codes suspended after taking the claim, one more code requested, then the activation fails on the mapping write and is released; 1 in 10 hold trials uses the hybrid deployment. " +
 		"index-writers (mapping quota): X's activation and the activation by Y of a code whose target is X, one suspended before each of its storage operations while the other completes, then X activates until refused; read-fault: at the quota, one more request whose k-th storage read fails once, every k. " +
 		"The quota is judged on max(service count, usable records found in the store). distinct = (mode, Q, prefill, N, K, admitted, racers between count and record) and schedule fingerprints")
@@ -1084,6 +1272,8 @@ func c17QuotaMonitor(t *testing.T, kind, name string) {
 	run.Floor(pre+"seq_refusals_checked", 50)
 	run.Floor(pre+"interposed_positions", 20)
 	run.Floor(pre+"read_faults_injected", 5)
+	run.Floor(pre+"object_histories", 40)
+	run.Floor(pre+"object_history_refused_at_quota", 20)
 	run.Floor(pre+"sequential_nodes_refused_at_quota", 10)
 	if kind == "code-quota" {
 		run.Floor("code-quota_claim_held_activation_failed", 3)
@@ -1149,6 +1339,46 @@ func c17QuotaMonitor(t *testing.T, kind, name string) {
 				}
 			}
 		}
+	}
+	// object histories: stale index references before/between/after live entries, status spellings, edge-case owner ids
+	for _, Q := range []int{1, 2, 3} {
+		for _, live := range []int{Q - 1, Q} {
+			for length := live + 1; length <= live+2 && length <= 5; length++ {
+				for _, pat := range c17Patterns(length, live, []string{"S"}) {
+					if run.Violations() < 20 {
+						c17ObjectHistoryTrial(run, kind, Q, c17HistClient(kind), pat, false)
+					}
+				}
+			}
+		}
+	}
+	if kind == "code-quota" {
+		for _, pat := range [][]string{{"S", "L"}, {"S", "L", "L"}, {"L", "S", "L"}, {"S", "S", "L", "L", "L"}} {
+			live := strings.Count(strings.Join(pat, ""), "L")
+			c17ObjectHistoryTrial(run, kind, live, c17HistClient(kind), pat, true) // records expire by their own (15 ms) TTL
+		}
+	} else {
+		for _, Q := range []int{1, 2, 3} {
+			for _, sp := range []string{"Active", "ACTIVE", " active", "active ", "inactive", ""} {
+				pat := make([]string, Q)
+				for i := range pat {
+					pat[i] = "L"
+				}
+				for pos := 0; pos < Q; pos++ { // one, then all, entries carry the spelling
+					p1 := append([]string(nil), pat...)
+					p1[pos] = sp
+					c17ObjectHistoryTrial(run, kind, Q, c17HistClient(kind), p1, false)
+				}
+				all := make([]string, Q)
+				for i := range all {
+					all[i] = sp
+				}
+				c17ObjectHistoryTrial(run, kind, Q, c17HistClient(kind), all, false)
+			}
+		}
+	}
+	for _, id := range []int64{1, 10000000, 99999999, 1 << 31, 1<<53 + 1, 1<<63 - 1} {
+		c17ObjectHistoryTrial(run, kind, 2, id, []string{"L", "S"}, false)
 	}
 	// clustered deployment (per-node tiered storage over one shared cache): strictly sequential requests through the nodes in turn
 	for _, Q := range []int{1, 2, 3} {
